@@ -132,6 +132,7 @@ static bool gen_one(qop *op, gctx c) {
 	}
 	if (!nk) return false;
 	op->kind = kinds[g_n((uint32_t)nk)];
+	if (G->apply_weight && (G->opmask & (1u << OP_APPLY)) && !c.noblock && !G->gate && g_chance(G->apply_weight, 100)) op->kind = OP_APPLY;
 	op->form = (int)g_n(2);
 	if (op->kind == OP_PAUSE) { op->depth = g_range(1, 200); return true; }
 	if (op->kind == OP_SUSPEND) {
@@ -152,12 +153,23 @@ static bool gen_one(qop *op, gctx c) {
 	if (Q[op->q].kind == QK_WORKLOOP && (op->kind == OP_SYNC || op->kind == OP_BARRIER_SYNC || op->kind == OP_APPLY)) op->kind = OP_AAW;
 	if (Q[op->q].kind == QK_MAIN && op->kind == OP_APPLY) op->kind = OP_ASYNC;
 	if (op->kind == OP_APPLY) {
-		static const int ns[] = { 0, 1, 2, 3, 5, 9 };
-		op->apply_n = ns[g_n(6)]; if (op->apply_n > G->apply_max) op->apply_n = G->apply_max;
+		int ncpu = sim_k.ncpu;
+		int ns[] = { 0, 1, 2, 3, 5, 9, ncpu > 1 ? ncpu - 1 : 1, ncpu, ncpu + 1, 17, 64, 1000 };
+		op->apply_n = ns[g_n(G->apply_big ? 12 : 9)];
+		if (op->apply_n > G->apply_max) op->apply_n = G->apply_max;
+		if (op->apply_n > MAX_ITEMS - nitems - 100) op->apply_n = 2;
+		op->apply_auto = Q[op->q].kind == QK_GLOBAL && g_chance(1, 2);
 		op->item = nitems;
 		for (int i = 0; i < op->apply_n; i++) if (new_item(op, c.client, c.parent_item, i) < 0) return false;
 		if (!op->apply_n) op->item = -1;
 		op->body = g_chance(1, 2) ? B_YIELD : B_EMPTY; op->body_arg = 1;
+		if (op->apply_n > 0 && c.depth < G->nest_depth && g_chance(G->nest_pct, 100)) {
+			// nested operations are issued by iteration 0 only (each operation owns its items)
+			op->body = B_NEST;
+			gctx cc = c; cc.parent_item = op->item; cc.from_q = op->q; cc.depth = c.depth + 1; cc.client = -1;
+			cc.min_tree = Q[op->q].tree; if (c.min_tree > cc.min_tree) cc.min_tree = c.min_tree;
+			gen_ops(&op->child, &op->nchild, g_range(1, 2), cc);
+		}
 		return true;
 	}
 	op->item = new_item(op, c.client, c.parent_item, -1);
@@ -255,7 +267,7 @@ static void render_ops(qop *ops, int n, int ind) {
 		if (op->kind == OP_PAUSE) h_sample(" %dus", op->depth);
 		else if (op->kind == OP_SUSPEND) h_sample("(q%d) x%d resume=%s", op->q, op->depth, op->body_arg == 1 ? "async" : "inline");
 		else if (op->kind == OP_ACTIVATE) h_sample("(q%d)", op->q);
-		else if (op->kind == OP_APPLY) h_sample("(%d, q%d) items %d..", op->apply_n, op->q, op->item);
+		else if (op->kind == OP_APPLY) h_sample("(%d, %s%d) items %d..%s", op->apply_n, op->apply_auto ? "AUTO/q" : "q", op->q, op->item, op->body == B_NEST ? " body=nest(iteration 0)" : "");
 		else h_sample("%s(q%d) item %d body=%s%s", op->form ? "" : "_f", op->q, op->item,
 			op->body == B_EMPTY ? "empty" : op->body == B_YIELD ? "yield" : op->body == B_SLEEP ? "sleep" : op->body == B_NEST ? "nest" : "wait-later",
 			"");
@@ -402,7 +414,9 @@ static void item_body(qitem *it) {
 	switch (op->body) {
 	case B_YIELD: for (int i = 0; i < op->body_arg; i++) sim_point(); break;
 	case B_SLEEP: sim_sleep_ns((uint64_t)op->body_arg * USEC); break;
-	case B_NEST: RES.counters[QC_NESTED] += op->nchild; run_ops(op->child, op->nchild, -1, it); break;
+	case B_NEST:
+		if (op->kind == OP_APPLY && it->apply_index != 0) { sim_point(); break; }
+		RES.counters[QC_NESTED] += op->nchild; run_ops(op->child, op->nchild, -1, it); break;
 	case B_WAIT_LATER:
 		if (op->wait_item >= 0 && !IT[op->wait_item].skipped) sim_event_wait(&IT[op->wait_item].done_ev, 3 * LIVENESS_NS);
 		break;
@@ -467,6 +481,7 @@ static void run_one(qop *op, int client, qitem *from) {
 		for (int i = 0; i < op->apply_n; i++) { prep_item(&IT[op->item + i]); IT[op->item + i].call = call; }
 		h_log("call apply #%d n=%d q%d", op->idx, op->apply_n, op->q);
 		RES.counters[QC_SYNC_CALLS]++;
+		if (op->apply_auto) q = DISPATCH_APPLY_AUTO;
 		if (op->form) dispatch_apply((size_t)op->apply_n, q, ^(size_t i) { apply_fn(op, i); });
 		else dispatch_apply_f((size_t)op->apply_n, q, op, apply_fn);
 		uint64_t ret = h_stamp();
